@@ -126,7 +126,8 @@ Qed.
 Section Global.
   Variable P : list pop.
   Variable C : list cop.
-  Hypothesis Hcheck : check_all P C = true.
+  Variable strict : bool.
+  Hypothesis Hcheck : check_all P C strict = true.
 
   Inductive greach (behs : list beh) : gst -> Prop :=
   | gr_init : greach behs (ginit behs)
@@ -301,13 +302,13 @@ Section Global.
     assert (Hlt : i < List.length (g_invs g)) by (apply nth_error_Some; congruence).
     pose proof (gi_loc _ _ H i v Hv) as Hloc.
     unfold g_enabled. apply existsb_exists.
-    destruct (progress P C Hcheck (g_beh v) (g_loc v) Hloc Hd) as [Hp | Hc].
+    destruct (progress P C strict Hcheck (g_beh v) (g_loc v) Hloc Hd) as [Hp | Hc].
     - exists (GParent i). split; [eapply choice_in; eauto|].
       cbn [gstep]. rewrite Hv, Hm, (env_zero behs g i H).
       unfold parent_enabled, step_enabled in Hp. destruct (lstep P C (g_beh v) 0 LParent (g_loc v)); [reflexivity | discriminate].
     - exists (GChild i). split; [eapply choice_in; eauto|].
       cbn [gstep]. rewrite Hv, (env_zero behs g i H).
-      pose proof (child_free P C Hcheck (g_beh v) (g_loc v) Hloc Hc) as Hf. unfold step_enabled in Hf.
+      pose proof (child_free P C strict Hcheck (g_beh v) (g_loc v) Hloc Hc) as Hf. unfold step_enabled in Hf.
       destruct (lstep P C (g_beh v) 0 LChild (g_loc v)); [reflexivity | discriminate].
   Qed.
 
@@ -397,13 +398,16 @@ Section Global.
   Qed.
 
   Lemma all_done_clean : forall behs g, greach behs g -> g_all_done g = true ->
+    (forall b, In b behs -> b_unp b && negb strict = false) ->
     g_parent_fds g = 0 /\ g_unreaped g = 0.
   Proof.
-    intros behs g Hr Hd. pose proof (reach_ok behs g Hr) as H.
+    intros behs g Hr Hd Hun. pose proof (reach_ok behs g Hr) as H.
     unfold g_all_done in Hd. rewrite forallb_forall in Hd.
     assert (Hc : forall v, In v (g_invs g) -> clean_exit (g_loc v) = true).
     { intros v Hv. pose proof (Hd v Hv) as Hdv. apply In_nth_error in Hv as [i Hi].
-      eapply done_clean; eauto. eapply gi_loc; eauto. }
+      eapply done_clean; eauto; [eapply gi_loc; eauto|].
+      apply Hun. rewrite <- (gi_beh _ _ H). apply in_map_iff. exists v. split; [reflexivity|].
+      eapply nth_error_In; eauto. }
     split; apply lsum_zero; intros v Hv; now apply clean_exit_counts, Hc.
   Qed.
 
